@@ -10,7 +10,7 @@ namespace Simpleline.G
 
 /-- what the instructions above the loop API read and write: the application state (screen stack, screen objects, input
 subsystem, console), the observable log, the counter for framework signal ids, the return registers of the callbacks, and
-the handler registrations (an `InputHandler` registers itself) -/
+the handler registrations (an `InputHandler` registers itself), the quit-callback registration -/
 structure View where
   A : AppSt
   log : List Ev
@@ -21,13 +21,14 @@ structure View where
   retKey : Str
   retAction : UAction
   handlers : List (Cls × HRef × Option Nat)
+  quitCb : Option Nat
 
 def Cfg.view (c : Cfg) : View :=
-  ⟨c.A, c.log, c.nextSid, c.retSetup, c.retPromptNone, c.retInput, c.retKey, c.retAction, c.L.handlers⟩
+  ⟨c.A, c.log, c.nextSid, c.retSetup, c.retPromptNone, c.retInput, c.retKey, c.retAction, c.L.handlers, c.L.quitCb⟩
 
 /-- the same projection of a configuration of the MainLoop machine -/
 def mview (c : Simpleline.Cfg) : View :=
-  ⟨c.A, c.log, c.nextSid, c.retSetup, c.retPromptNone, c.retInput, c.retKey, c.retAction, c.L.handlers⟩
+  ⟨c.A, c.log, c.nextSid, c.retSetup, c.retPromptNone, c.retInput, c.retKey, c.retAction, c.L.handlers, c.L.quitCb⟩
 
 /-- the instructions both machines share (scheduler, screens, input, the user actions, and the loop API *entry points* the
 scheduler pushes: `newLoop`, `closeLoop`, `procWait`), translated constructor by constructor; the GLib-only loop
@@ -157,20 +158,20 @@ theorem deliver_views (g : Cfg) (m : Simpleline.Cfg) (hv : g.view = mview m) :
   obtain ⟨gc, gL, gA, gl, gt, gs, g1, g2, g3, g4, g5⟩ := g
   obtain ⟨mc, mL, mA, ml, mt, ms, m1, m2, m3, m4, m5⟩ := m
   simp only [Cfg.view, mview, View.mk.injEq] at hv
-  obtain ⟨rfl, rfl, rfl, rfl, rfl, rfl, rfl, rfl, hh⟩ := hv
+  obtain ⟨rfl, rfl, rfl, rfl, rfl, rfl, rfl, rfl, hh, hq⟩ := hv
   simp only [Cfg.deliver, Simpleline.Cfg.deliver]
   cases hr : gA.readers with
-  | nil => simp [Cfg.view, mview, hh]
+  | nil => simp [Cfg.view, mview, hh, hq]
   | cons r rs =>
     simp only [Option.getD_some]
     refine ⟨?_, ?_, ?_, ?_⟩
     · rw [(m_enqueue_view _ _).1]
       cases he : Cfg.enq? _ _ with
-      | none => simp [Cfg.view, mview, Cfg.newSig, Simpleline.Cfg.newSig, hh]
+      | none => simp [Cfg.view, mview, Cfg.newSig, Simpleline.Cfg.newSig, hh, hq]
       | some g2 =>
         simp only [Option.getD_some]
         rw [(enq?_view he).1]
-        simp [Cfg.view, mview, Cfg.newSig, Simpleline.Cfg.newSig, hh]
+        simp [Cfg.view, mview, Cfg.newSig, Simpleline.Cfg.newSig, hh, hq]
     · cases he : Cfg.enq? _ _ with
       | none => rfl
       | some g2 => simp only [Option.getD_some]; rw [(enq?_view he).2.1]; rfl
@@ -187,11 +188,11 @@ theorem emit_views (P : Prog) (g : Cfg) (m : Simpleline.Cfg) (e : Ev) (hv : g.vi
   obtain ⟨mc, mL, mA, ml, mt, ms, m1, m2, m3, m4, m5⟩ := m
   have hv0 := hv
   simp only [Cfg.view, mview, View.mk.injEq] at hv
-  obtain ⟨rfl, rfl, rfl, rfl, rfl, rfl, rfl, rfl, hh⟩ := hv
+  obtain ⟨rfl, rfl, rfl, rfl, rfl, rfl, rfl, rfl, hh, hq⟩ := hv
   simp only [Cfg.emit, Simpleline.Cfg.emit]
   split
-  · exact deliver_views _ _ (by simp [Cfg.view, mview, hh])
-  · exact ⟨by simp [Cfg.view, mview, hh], rfl, rfl, rfl⟩
+  · exact deliver_views _ _ (by simp [Cfg.view, mview, hh, hq])
+  · exact ⟨by simp [Cfg.view, mview, hh, hq], rfl, rfl, rfl⟩
 
 theorem chunkOut_map (scr : Nat) : ∀ (evs : List OutEv) (cur : List Str) (acc : List Instr),
     (chunkOut scr evs cur acc).map tI = Simpleline.step.go scr evs cur (acc.map tI) ∧ (∀ j ∈ acc, mapped j = true → True)
